@@ -1,6 +1,7 @@
 import PicoProofs.EndToEnd
 import PicoProofs.GoTieApi
 import PicoProofs.Tie
+import PicoModel.Sample
 /-
 C09 — Decoding concatenated encodings equals decoding them one after another.
 
@@ -67,5 +68,10 @@ theorem C09_source_unmarshal_concat (S : Schema) (hS : S.supported = true) (id :
   obtain ⟨d2, m2, d12, m12, h2, h12, hiff, hval⟩ := unmarshal_concat S hS id a b m0 hm0 d1 m1' hr1 he
   exact ⟨m2, d2.err, m12, d12.err, GoTie.srcUnmarshal_of S id b m1' d2 m2 h2,
     GoTie.srcUnmarshal_of S id (a ++ b) m0 d12 m12 h12, hiff, hval⟩
+
+/-- non-vacuity: a first input that decodes, chunks that are whole records, a conforming start value -/
+example : (Spec.specUnmarshal S1 0 [8, 1] (Gen2.zeroMsg S1 0)).isSome = true := by decide +kernel
+example : ∀ b ∈ [[8, 1], [], [16, 0]], (Spec.records (b.length + 1) b).isSome := by decide +kernel
+example : Gen2.shMsg S1 0 (Gen2.zeroMsg S1 0) = true := by decide +kernel
 
 end Pico.Props
